@@ -478,3 +478,176 @@ func loopInit(e *an.Expr, sym string) (int64, bool) {
 	}
 	return i0, have
 }
+
+// globalIntTable returns the constant elements of a package-level slice or
+// array variable of integers that is written only by its package initialiser
+// (`var lengths = []int{32, 40, …}`), given an expression that denotes it
+// (the variable, or a slice of it).
+func (c *Ctx) globalIntTable(e *an.Expr) ([]int64, bool) {
+	for e != nil && (e.Op == an.OpSlice || e.Op == an.OpConv) && len(e.Args) > 0 {
+		e = e.Args[0]
+	}
+	if e == nil || e.Op != an.OpGlobal {
+		return nil, false
+	}
+	var g *ssa.Global
+	for _, pkg := range c.P.SSA.AllPackages() {
+		if !load.InModulePkg(pkg) {
+			continue
+		}
+		for _, m := range pkg.Members {
+			if gv, ok := m.(*ssa.Global); ok && pkg.Pkg.Name()+"."+gv.Name() == e.Name {
+				g = gv
+			}
+		}
+	}
+	if g == nil {
+		return nil, false
+	}
+	// every instruction that mentions g outside the package initialiser must be a plain load
+	for _, fn := range c.srcFuncs() {
+		if fn.Synthetic != "" && fn.Name() == "init" {
+			continue
+		}
+		for _, b := range fn.Blocks {
+			for _, in := range b.Instrs {
+				for _, op := range in.Operands(nil) {
+					if op == nil || *op != ssa.Value(g) {
+						continue
+					}
+					if u, ok := in.(*ssa.UnOp); ok && u.Op == token.MUL {
+						continue
+					}
+					if sl, ok := in.(*ssa.Slice); ok && sl.X == ssa.Value(g) {
+						// slicing the array: elements could be written through the slice; require read-only uses
+						if sl.Referrers() != nil {
+							for _, r := range *sl.Referrers() {
+								if _, isCall := r.(ssa.CallInstruction); !isCall {
+									return nil, false
+								}
+							}
+						}
+						continue
+					}
+					return nil, false
+				}
+			}
+		}
+	}
+	init := g.Pkg.Func("init")
+	if init == nil {
+		return nil, false
+	}
+	var out []int64
+	elems := map[int64]int64{}
+	collectIA := func(ia *ssa.IndexAddr) bool {
+		idx, ok := ia.Index.(*ssa.Const)
+		if !ok || ia.Referrers() == nil {
+			return false
+		}
+		for _, u := range *ia.Referrers() {
+			st, ok := u.(*ssa.Store)
+			if !ok {
+				continue
+			}
+			cv, ok := st.Val.(*ssa.Const)
+			if !ok || cv.Value == nil {
+				return false
+			}
+			v, exact := constant.Int64Val(constant.ToInt(cv.Value))
+			if !exact {
+				return false
+			}
+			elems[idx.Int64()] = v
+		}
+		return true
+	}
+	collect := func(base ssa.Value) bool {
+		if base.Referrers() == nil {
+			return false
+		}
+		for _, r := range *base.Referrers() {
+			if ia, ok := r.(*ssa.IndexAddr); ok {
+				if !collectIA(ia) {
+					return false
+				}
+			}
+		}
+		return true
+	}
+	found := false
+	for _, b := range init.Blocks {
+		for _, in := range b.Instrs {
+			switch x := in.(type) {
+			case *ssa.Store:
+				if x.Addr == ssa.Value(g) {
+					// slice variable: *g = slice(new [n]int)
+					if sl, ok := x.Val.(*ssa.Slice); ok {
+						if !collect(sl.X) {
+							return nil, false
+						}
+						found = true
+					} else if ld, ok := x.Val.(*ssa.UnOp); ok && ld.Op == token.MUL {
+						// array variable: *g = *local, the local filled element by element
+						if !collect(ld.X) {
+							return nil, false
+						}
+						found = true
+					} else {
+						return nil, false
+					}
+				}
+			case *ssa.IndexAddr:
+				// array variable initialised element by element
+				if x.X == ssa.Value(g) {
+					if !collectIA(x) {
+						return nil, false
+					}
+					found = true
+				}
+			}
+		}
+	}
+	if !found {
+		return nil, false
+	}
+	if len(elems) == 0 {
+		return nil, false
+	}
+	for i := int64(0); i < int64(len(elems)); i++ {
+		v, ok := elems[i]
+		if !ok {
+			return nil, false
+		}
+		out = append(out, v)
+	}
+	return out, true
+}
+
+// memberAtom matches an atom that decides membership of a value in a constant
+// set: `x == k` (set {k}) or `slices.Contains(table, x)` with table a
+// constant package-level table. It returns the value, the set and whether the
+// path takes the "member" outcome.
+func (c *Ctx) memberAtom(a an.PathAtom) (x *an.Expr, set []int64, member bool, ok bool) {
+	if l, r, op, isCmp := effCmp(a); isCmp && (op == token.EQL || op == token.NEQ) {
+		if k, isC := r.ConstInt(); isC {
+			return l, []int64{k}, op == token.EQL, true
+		}
+	}
+	e := a.Cond
+	if e.Op == an.OpCall && len(e.Args) == 2 {
+		name := ""
+		if e.Fn != nil {
+			name = e.Fn.String()
+			if o := e.Fn.Origin(); o != nil {
+				name = o.String()
+			}
+		}
+		if name == "slices.Contains" {
+			if tbl, okT := c.globalIntTable(e.Args[0]); okT {
+				return e.Args[1], tbl, a.Pos, true
+			}
+		}
+	}
+	return nil, nil, false, false
+}
